@@ -43,6 +43,7 @@ fn main() {
         "wire" => fnprops::wire(&args[2], &args[3]),
         "resp" => fnprops::resp(&args[2], &args[3], seed),
         "resp-sweep" => fnprops::resp_sweep(&args[2], args[3].parse().unwrap_or(1)),
+        "mock" => fnprops::mock(&args[2], &args[3]),
         "gen" => fnprops::generator(&args[2], &args[3]),
         "time" => fnprops::time(&args[2], &args[3], seed),
         _ => {
